@@ -479,10 +479,13 @@ pub fn check_many(case: &ManyCase) -> CaseResult {
     let cap = case.capacity.max(1) as usize;
     let log = Arc::new(EventLog::default());
     let gate = Gate::new(false);
-    let stream = BqStream::new(vec![], gate.clone(), log.clone());
+    let mut stream = BqStream::new(vec![], gate.clone(), log.clone());
+    // every entry takes ~50 us in the stream: the drain of a backlog is slow enough for the
+    // completion watcher below to see a request complete BEFORE the entries it covers were written
+    stream.jitter = vec![47];
     let interval = if case.long_interval { Duration::from_secs(30) } else { Duration::from_millis(1) };
-    let (q, handle) = super::c01::build_queue(cap.max(case.before as usize + 1), case.boxed, interval, stream);
-    let before = case.before.max(1) as usize;
+    let before = case.before.max(1) as usize + if case.shutdown_first { case.capacity as usize * 3 } else { 0 };
+    let (q, handle) = super::c01::build_queue(cap.max(before + 1), case.boxed, interval, stream);
     for s in 0..before {
         let id = Id { p: 0, s: s as u32 };
         log.push(Ev::AppendStart(id));
@@ -532,6 +535,29 @@ pub fn check_many(case: &ManyCase) -> CaseResult {
     let mut classes: Classes = vec![];
     let mut q = Some(q);
     let mut handle = Some(handle);
+    // completions are logged by a watcher AS THEY HAPPEN (polling every request in turn), not when
+    // the controller gets round to awaiting them: a request that completes while entries appended
+    // before it are still queued is seen as such
+    let n_futures = futures.len();
+    let watcher = {
+        let log = log.clone();
+        std::thread::spawn(move || {
+            let mut pending = futures;
+            let t0 = std::time::Instant::now();
+            while !pending.is_empty() && t0.elapsed() < Duration::from_secs(10) {
+                pending.retain_mut(|(i, f)| {
+                    if poll_once(f.as_mut()).is_ready() {
+                        log.push(Ev::FlushDone(*i));
+                        false
+                    } else {
+                        true
+                    }
+                });
+                std::thread::yield_now();
+            }
+            pending.len()
+        })
+    };
     if case.shutdown_first {
         // the requests are pending (or at most being handled): shutdown drains, flushes, and
         // every one of them completes - none before its barrier
@@ -540,17 +566,20 @@ pub fn check_many(case: &ManyCase) -> CaseResult {
         no_panic("queue-shutdown", || handle.take().unwrap().shut_down())?;
         log.push(Ev::HandleDropEnd);
         classes.push("shutdown-with-requests-pending");
+        if before > 32 {
+            classes.push("shutdown-with-requests-pending-and-a-backlog-over-32");
+        }
     }
-    for (i, mut f) in futures {
-        if block_on_timeout(f.as_mut(), Duration::from_secs(10)).is_none() {
-            if let Some(h) = handle.take() {
-                let _ = no_panic("queue-shutdown", || h.shut_down());
-            } else {
-                vfail!("flush:never-completes-after-shutdown", "flush {i} was pending when shut_down() was called; shut_down() returned and the flush still has not completed");
-            }
+    let still_pending = watcher.join().unwrap_or(n_futures);
+    if still_pending > 0 {
+        if let Some(h) = handle.take() {
+            let _ = no_panic("queue-shutdown", || h.shut_down());
             return Ok(vec!["inconclusive-timeout"]);
         }
-        log.push(Ev::FlushDone(i));
+        vfail!(
+            "flush:never-completes-after-shutdown",
+            "{still_pending} flush request(s) were pending when shut_down() was called; shut_down() returned and they still have not completed"
+        );
     }
     check_flush_barrier(&log.snapshot(), usize::MAX)?;
     drop(q.take());
@@ -640,12 +669,12 @@ pub fn run(ctx: &mut Ctx) {
     ctx.explore(
         SubCfg::new(
             "c04-many-requests",
-            "real queue whose writer is held inside stream.next() for the first of 1-30 appended entries (fuel gate shut) while 1-4 threads issue 0-60 flush requests each (0-240 outstanding, none read by the writer yet); every future is polled once right away, then the gate opens and all are awaited - in 30% of the cases only after shut_down() was called with them pending; flush interval 1 ms or 30 s (with 30 s no periodic stream flush can fire, so the stream flush the barrier asks for must be the one performed for the waiters). Oracle: the barrier over the event log for every request - none completes before the entries appended before it were written and the stream flushed after them. Non-trivial = more than 32 requests outstanding at once",
+            "real queue whose writer is held inside stream.next() for the first of 1-30 appended entries (fuel gate shut) while 1-4 threads issue 0-60 flush requests each (0-240 outstanding, none read by the writer yet); every future is polled once right away, then the gate opens and a watcher thread logs each completion as it happens - in 30% of the cases shut_down() is called with them pending and a backlog of up to 150 entries behind a stream that takes ~50 us per entry; flush interval 1 ms or 30 s (with 30 s no periodic stream flush can fire, so the stream flush the barrier asks for must be the one performed for the waiters). Oracle: the barrier over the event log for every request - none completes before the entries appended before it were written and the stream flushed after them. Non-trivial = more than 32 requests outstanding at once",
             if q { 1_000 } else { 20_000 },
         )
         .threads(ctx.tier.pick(4, 8))
         .shrink_iters(60)
-        .mandatory(&["more-than-32-requests-outstanding", "more-than-128-requests-outstanding", "requests-from-several-threads", "no-periodic-stream-flush-possible", "shutdown-with-requests-pending"]),
+        .mandatory(&["more-than-32-requests-outstanding", "more-than-128-requests-outstanding", "requests-from-several-threads", "no-periodic-stream-flush-possible", "shutdown-with-requests-pending", "shutdown-with-requests-pending-and-a-backlog-over-32"]),
         || {
             (
                 1u8..40,
